@@ -66,8 +66,9 @@
       goes up by one per tick (tick_election_waits) and after exactly
       max 1 (randomized_election_timeout - election_elapsed) ticks - at most
       max 1 randomized_election_timeout (election_timeout_bound) - the counter is cleared and
-      hup runs (tick_election_fires).  hup_campaigns: hup on a non-leader with no unapplied
-      membership change ends as PreCandidate (pre_vote), as Candidate of term+1 that voted
+      hup runs (tick_election_fires).  hup_campaigns: hup on a non-leader whose window scan
+      (C09 hup_scan, the window of fix a8252b4) finds no unapplied membership change ends
+      as PreCandidate (pre_vote), as Candidate of term+1 that voted
       for itself, or as Leader of term+1 (own vote = quorum); never as Follower (the own
       vote cannot lose: vote_result_not_lost).  randomized_timeout_range: reset installs
       the oracle's next draw as randomized_election_timeout and clears both counters
@@ -522,7 +523,7 @@ Print Assumptions C10_randomized_timeout_range.
 Theorem C10_hup_campaigns :
   forall r r',
   is_leader r = false ->
-  has_unapplied_conf_changes r (hup_low r) (committed (r_log r) + 1) = Ok false ->
+  hup_scan r false ->
   hup r false = Ok r' ->
   (r_state r' = PreCandidate /\ r_pre_vote r = true /\ r_term r' = r_term r) \/
   (r_state r' = Candidate /\ r_term r' = r_term r + 1 /\ r_vote r' = r_id r) \/
